@@ -20,7 +20,10 @@ GROUP = ('law', 'verdict')
 
 COLS = [1, 2, 25, 26, 27, 28, 51, 52, 53, 701, 702, 703, 704, 16383, 16384]
 ROWS = [1, 2, 9, 10, 11, 99, 100, 1048575, 1048576]
-SHEETS = ['', 'S', 'Sheet 1', "O'Brien", 'it is', '2024', 'A1', 'R1C1', 'é', "a 'q' b", 'x.y', 'Sheet-1']
+SHEETS = ['', 'S', 'Sheet 1', "O'Brien", 'it is', '2024', 'A1', 'R1C1', 'é', "a 'q' b", 'x.y', 'Sheet-1',
+          # every other character Excel allows in a sheet name (it forbids only : \\ / ? * [ ] and a quote at either end)
+          'a!b', 'x y!z', 'A!1', 'Sheet1!A1', '(1)', 'a,b', 'a;b', 'a&b', '#1', '50%', 'a=b', 'a+b', 'a<b>', 'a"b', 'a{b}', 'a~b', 'a^b',
+          '$A$1', 'TRUE', '1e5', 'XFD1', 'XFE1', 'RC', 'R', '\u65e5\u672c', "don't", 'Ab12c', 'x' * 31]
 MAXC, MAXR = 16384, 1048576
 
 
@@ -334,7 +337,7 @@ def work_offsets(job):
 def run(ctx):
     n = 16
     sh = SHEETS[ctx.seed % len(SHEETS):] + SHEETS[:ctx.seed % len(SHEETS)]
-    ctx.pmap(work_roundtrip, [(sh if ctx.thorough else sh[:6] + ["a 'q' b"], k, n) for k in range(n)], timeout=3000)
+    ctx.pmap(work_roundtrip, [(sh if ctx.thorough else sh[:6] + ["a 'q' b", 'a!b', 'x y!z', 'a,b'], k, n) for k in range(n)], timeout=3000)
     g = 6 if ctx.thorough else 4
     m = 64 if not ctx.thorough else 441
     ctx.pmap(work_lattice, [(g, k, m, True) for k in range(m)], timeout=6000)
